@@ -39,8 +39,8 @@ Definition ev_nontrivial (e : directive * list obs) : bool :=
   | DSender _ _ None => true
   | DExec b => existsb ex_lose b ||
                existsb (fun o => match o with
-                                 | OExec (Some rss) _ => existsb (existsb lost_write) rss
-                                 | OExec None _ => true
+                                 | OExec _ (Some rss) _ => existsb (existsb lost_write) rss
+                                 | OExec _ None _ => true
                                  | _ => false end) (snd e)
   | DTick _ _ _ _ =>
     existsb (fun o => match o with
@@ -60,8 +60,8 @@ Fixpoint store_mismatch_from (d : db) (tr : list (list (list command * list (opt
   | [] => None
   | (txns, ob_impl) :: tr' =>
     let '(d', ob) := match exec_batch d txns with
-                     | Some (d', rss) => (d', OExec (Some rss) d')
-                     | None => (d, OExec None d)
+                     | Some (d', rss) => (d', OExec (map fst txns) (Some rss) d')
+                     | None => (d, OExec (map fst txns) None d)
                      end in
     if obs_eqb ob ob_impl then store_mismatch_from d' tr' (S i) else Some (i, ob)
   end.
